@@ -5,7 +5,7 @@ import concurrent.futures as cf
 import multiprocessing as mp
 import re
 
-from contracts import c10_thriftobj, cy
+from contracts import c10_thriftobj, c10_markerframe, cy
 from vlib.common import PROVED, REFUTED, UNKNOWN
 
 # obligation (regex) -> known finding; a refutation is 'known' only if the finding is listed AND the same obligation posed with the
@@ -21,7 +21,8 @@ FUNC_OF = {"init": "ThriftObject.__init__", "class": "ThriftObject", "thriftobj"
            "delattr": "ThriftObject.__delattr__", "contents": "ThriftObject.contents", "thrift_name": "ThriftObject.thrift_name", "raw": "ThriftObject",
            "from_fields": "ThriftObject.from_fields", "parquet_thrift": "parquet_thrift.__getattr__", "copy": "ThriftObject.copy", "deepcopy": "ThriftObject.__deepcopy__",
            "to_bytes": "ThriftObject.to_bytes", "from_buffer": "from_buffer", "reduce": "ThriftObject.__reduce_ex__", "pickle": "ThriftObject.__reduce_ex__ + from_buffer",
-           "dict_eq": "dict_eq", "eq": "ThriftObject.__eq__", "asdict": "ThriftObject._asdict"}
+           "dict_eq": "dict_eq", "eq": "ThriftObject.__eq__", "asdict": "ThriftObject._asdict",
+           "marker": "writer.py/api.py/schema.py/util.py/core.py/dataframe.py (width-marker frame)"}
 
 
 def _task(t):
@@ -36,7 +37,7 @@ def _task(t):
 
 def p_thriftobj(ctx):
     cy.register(ctx, c10_thriftobj.FUNCTIONS)
-    for a in c10_thriftobj.ASSUMED:
+    for a in c10_thriftobj.ASSUMED + c10_markerframe.ASSUMED:
         if a not in ctx.assumptions:
             ctx.assumptions.append(a)
     timeout = 10000 if ctx.tier == "quick" else 60000
